@@ -371,7 +371,7 @@ uint8_t vf_station[64][6] = {
     [ST_ZERO] = {0, 0, 0, 0, 0, 0},
 };
 const char *vf_station_name(int s) {
-    static const char *n[] = {"OWN", "OWN2", "M1", "M2", "M3", "BR", "S0", "S1", "PEER", "BC", "ZERO"};
+    static const char *n[] = {"OWN", "OWN2", "M1", "M2", "M3", "BR", "S0", "S1", "PEER", "BC", "ZERO", "SIBLING-IFACE"};
     return (s >= 0 && s < ST_N) ? n[s] : "?";
 }
 
